@@ -135,3 +135,83 @@ func TestPacingSecondIncarnation(t *testing.T) {
 		})
 	})
 }
+
+// TestPacingRateSpikes: while a backlog drains at a low rate, the application raises the rate for an instant and lowers it again, several times
+// (an estimator that overshoots and corrects itself). The envelope is the piecewise one: largest bucket so far (twice, for a stale tick) plus the
+// integral of the rate in force, where each spike contributes the high rate for the time between the stamps taken around its two SetRate calls.
+// A pacer that hands out a fresh bucket at a rate change releases one high-rate bucket per spike and leaves the envelope after a few of them.
+func TestPacingRateSpikes(t *testing.T) {
+	rec := kit.NewRecorder("C17", "pacing-rate-spikes",
+		"pacing.Interceptor draining a backlog at 300 kbit/s..2 Mbit/s, interval 2..5 ms, 20..40 momentary raises to a rate whose bucket is 3 or 5 times larger (SetRate up, SetRate down at once or 200 us later); "+
+			"released bits at every delivery <= 2 x largest burst + integral of the rate in force (+1 packet); non-trivial = always; distinct by parameters")
+	rapid.Check(t, func(t *rapid.T) {
+		low := rapid.SampledFrom([]int{300_000, 1_000_000, 2_000_000}).Draw(t, "low")
+		interval := time.Duration(rapid.IntRange(2, 5).Draw(t, "intervalMS")) * time.Millisecond
+		factor := rapid.SampledFrom([]int{3, 5}).Draw(t, "bucketFactor")
+		spikes := rapid.IntRange(20, 40).Draw(t, "spikes")
+		bLow := burstOf(low, interval)
+		high := int(float64(factor*bLow) / interval.Seconds())
+		bHigh := burstOf(high, interval)
+		// enough backlog for everything a pacer could wrongly hand out: a bucket of either size per spike on top of the envelope
+		n := (2*spikes*bLow+2*bHigh+int(float64(low)*float64(spikes)*2.5*interval.Seconds()))/9696 + 5
+		if drain := float64(n*9696) / float64(low); drain > 2.5 {
+			n = int(2.5*float64(low)) / 9696
+		}
+		f := pacing.NewInterceptor(pacing.InitialRate(low), pacing.Interval(interval))
+		ic, err := f.NewInterceptor("pc")
+		if err != nil {
+			t.Fatalf("NewInterceptor: %v", err)
+		}
+		defer kit.BoundedClose(ic.Close)
+		sink := &kit.RTPSink{}
+		w := ic.BindLocalStream(&interceptor.StreamInfo{SSRC: 50}, sink)
+		time.Sleep(2 * interval)
+		start := time.Now()
+		for i := 0; i < n; i++ {
+			hdr := rtp.Header{Version: 2, SSRC: 50, SequenceNumber: uint16(i)} //nolint:gosec
+			if _, err := w.Write(&hdr, make([]byte, 1200), nil); err != nil {
+				t.Fatalf("Write: %v", err)
+			}
+		}
+		dwell := time.Duration(rapid.SampledFrom([]int{0, 0, 200}).Draw(t, "dwellUs")) * time.Microsecond
+		type window struct{ from, to time.Time }
+		var wins []window
+		for k := 0; k < spikes; k++ {
+			time.Sleep(interval + time.Duration(rapid.IntRange(0, 1500).Draw(t, "pauseUs"))*time.Microsecond)
+			from := time.Now()
+			f.SetRate("pc", high)
+			if dwell > 0 {
+				time.Sleep(dwell)
+			}
+			f.SetRate("pc", low)
+			wins = append(wins, window{from, time.Now()})
+		}
+		wait := time.Duration(float64(n*9696)/float64(low)*3*float64(time.Second)) + 200*interval + time.Second
+		if !kit.Eventually(wait, func() bool { return sink.Len() >= n }) {
+			t.Skipf("inconclusive: %d of %d delivered within %v", sink.Len(), n, wait)
+		}
+		released := 0
+		for _, c := range sink.Calls() {
+			released += 8 * (c.Header.MarshalSize() + len(c.Payload))
+			allowed := 2*float64(bHigh) + float64(low)*c.At.Sub(start).Seconds() + 9696
+			seen := 0
+			for _, wn := range wins {
+				if c.At.After(wn.from) {
+					seen++
+					end := wn.to
+					if c.At.Before(end) {
+						end = c.At
+					}
+					allowed += float64(high-low) * end.Sub(wn.from).Seconds()
+				}
+			}
+			if float64(released) > allowed {
+				t.Fatalf("backlog of %d packets at %d bit/s (interval %v), %d momentary raises to %d bit/s so far: %d bits released %.6f s after the first write; "+
+					"2 x largest burst %d + integral of the rate in force (+1 packet) = %.0f", n, low, interval, seen, high, released, c.At.Sub(start).Seconds(), bHigh, allowed)
+			}
+		}
+		rec.Case(kit.NewH().I(low, int(interval), factor, spikes).Sum(), true, nil, func() any {
+			return map[string]any{"low": low, "high": high, "interval_ms": interval.Milliseconds(), "spikes": spikes, "packets": n}
+		})
+	})
+}
